@@ -78,6 +78,11 @@ pub struct Compiler {
     include_callback: Option<IncludeCallback>,
 }
 
+/// Maximum nesting of `include` directives.
+///
+/// This is the same value as `YR_MAX_INCLUDE_DEPTH` in libyara.
+const MAX_INCLUDE_DEPTH: usize = 16;
+
 #[allow(clippy::type_complexity)]
 struct IncludeCallback(
     Box<dyn FnMut(&str, Option<&Path>, &str) -> Result<String, std::io::Error> + Send + Sync>,
@@ -192,7 +197,7 @@ impl Compiler {
         path: T,
     ) -> Result<AddRuleStatus, AddRuleError> {
         let mut status = AddRuleStatus::default();
-        self.add_rules_file_inner(path.as_ref(), "default", &mut status)?;
+        self.add_rules_file_inner(path.as_ref(), "default", 0, &mut status)?;
         Ok(status)
     }
 
@@ -208,7 +213,7 @@ impl Compiler {
         namespace: S,
     ) -> Result<AddRuleStatus, AddRuleError> {
         let mut status = AddRuleStatus::default();
-        self.add_rules_file_inner(path.as_ref(), namespace.as_ref(), &mut status)?;
+        self.add_rules_file_inner(path.as_ref(), namespace.as_ref(), 0, &mut status)?;
         Ok(status)
     }
 
@@ -216,6 +221,7 @@ impl Compiler {
         &mut self,
         path: &Path,
         namespace: &str,
+        include_depth: usize,
         status: &mut AddRuleStatus,
     ) -> Result<(), AddRuleError> {
         let contents = std::fs::read_to_string(path).map_err(|error| {
@@ -228,7 +234,7 @@ impl Compiler {
                 "",
             )
         })?;
-        self.add_rules_str_inner(&contents, namespace, Some(path), status)
+        self.add_rules_str_inner(&contents, namespace, Some(path), include_depth, status)
     }
 
     /// Add rules to compile from a string.
@@ -243,7 +249,7 @@ impl Compiler {
         rules: T,
     ) -> Result<AddRuleStatus, AddRuleError> {
         let mut status = AddRuleStatus::default();
-        self.add_rules_str_inner(rules.as_ref(), "default", None, &mut status)?;
+        self.add_rules_str_inner(rules.as_ref(), "default", None, 0, &mut status)?;
         Ok(status)
     }
 
@@ -258,7 +264,7 @@ impl Compiler {
         namespace: S,
     ) -> Result<AddRuleStatus, AddRuleError> {
         let mut status = AddRuleStatus::default();
-        self.add_rules_str_inner(rules.as_ref(), namespace.as_ref(), None, &mut status)?;
+        self.add_rules_str_inner(rules.as_ref(), namespace.as_ref(), None, 0, &mut status)?;
         Ok(status)
     }
 
@@ -267,12 +273,20 @@ impl Compiler {
         s: &str,
         namespace: &str,
         current_filepath: Option<&Path>,
+        include_depth: usize,
         status: &mut AddRuleStatus,
     ) -> Result<(), AddRuleError> {
         match boreal_parser::parse_with_params(s, self.params.parse_params) {
             Ok(file) => {
                 for component in file.components {
-                    self.add_component(component, namespace, current_filepath, s, status)?;
+                    self.add_component(
+                        component,
+                        namespace,
+                        current_filepath,
+                        s,
+                        include_depth,
+                        status,
+                    )?;
                 }
                 Ok(())
             }
@@ -290,6 +304,7 @@ impl Compiler {
         namespace_name: &str,
         current_filepath: Option<&Path>,
         parsed_contents: &str,
+        include_depth: usize,
         status: &mut AddRuleStatus,
     ) -> Result<(), AddRuleError> {
         let ns_index = match self.namespaces_indexes.entry(namespace_name.to_string()) {
@@ -317,6 +332,19 @@ impl Compiler {
                         parsed_contents,
                     ));
                 }
+                // Bound the nesting of includes, so that a file including itself (or any
+                // other include cycle) is an error rather than an unbounded recursion.
+                if include_depth >= MAX_INCLUDE_DEPTH {
+                    return Err(AddRuleError::new(
+                        AddRuleErrorKind::InvalidInclude {
+                            path: PathBuf::from(&include.path),
+                            span: include.span,
+                            error: std::io::Error::other("includes depth exceeded"),
+                        },
+                        current_filepath,
+                        parsed_contents,
+                    ));
+                }
                 match &mut self.include_callback {
                     Some(cb) => {
                         // With an include callback, we do not attempt to resolve the path
@@ -338,6 +366,7 @@ impl Compiler {
                             &contents,
                             namespace_name,
                             Some(Path::new(&include.path)),
+                            include_depth + 1,
                             status,
                         )?;
                     }
@@ -361,7 +390,12 @@ impl Compiler {
                                 parsed_contents,
                             )
                         })?;
-                        self.add_rules_file_inner(&path, namespace_name, status)?;
+                        self.add_rules_file_inner(
+                            &path,
+                            namespace_name,
+                            include_depth + 1,
+                            status,
+                        )?;
                     }
                 }
             }
